@@ -5,7 +5,7 @@ CONSTANTS
   Levels = {}
   Calls = {}
   TextBytes = {0, 1, 2, 3, 4, 97}
-  MaxText = 5
+  MaxText = 4
   Ops = {}
   LogMax = 256
   AsFound = {}
